@@ -24,7 +24,7 @@ from mc.models import regex_nfa as R
 ID = "C19"
 LEVEL = "model_checking"
 REQUIRED_OUTCOMES = ["pattern:polynomial", "matcher-agrees-with-engine", "family:polynomial-growth", "inventory:runtime",
-                     "inventory:static", "document-load:fast"]
+                     "inventory:static", "document-load:fast", "inventory:no-pattern-built-from-document-data", "structure:polynomial"]
 
 DRIVER = r'''
 import json, sys, re, glob, os
@@ -68,7 +68,7 @@ safe(productmd.modules.Modules.parse_uid, "a/b/perl:5.26:2018:abc"); safe(produc
 from mc.build import ci as CI, im as IM, ti as TI, misc as MISC
 from mc.models import legacy, ini
 texts = []
-for seed in (CI.seed_forest, CI.seed_layered):
+for seed in (CI.seed_forest, CI.seed_layered, CI.seed_two_level):
     o = CI.build(seed()); t = o.dumps(); texts.append(("ci", t))
     for v in ("0.2", "0.9", "1.0"):
         conv = legacy.composeinfo(json.loads(t), v)
@@ -88,7 +88,41 @@ for seed in (TI.seed_nested, TI.seed_layered):
 for p in sorted(glob.glob(os.path.join(REPO, "tests", "treeinfo", "*")))[:80]:
     safe(ti.TreeInfo().load, p)
 d = MISC.discinfo(); safe(productmd.discinfo.DiscInfo().loads, d.dumps())
-print("INVENTORY " + json.dumps(sorted([p, f, sorted(h)] for (p, f), h in seen.items())))
+# tainted documents: every string of the document carries a marker with regex metacharacters; a recorded pattern that contains the
+# raw marker was built from document data without escaping
+MARK = "Zq.9+Zq"
+def taint(x):
+    if isinstance(x, dict):
+        return {((k + MARK) if isinstance(k, str) and k[:1].isupper() else k): taint(v) for k, v in x.items()}
+    if isinstance(x, list):
+        return [taint(v) for v in x]
+    if isinstance(x, str) and x not in ("productmd.composeinfo", "productmd.images", "productmd.rpms", "productmd.modules", "productmd.extra_files") \
+            and not x[:1].isdigit():
+        return x + MARK
+    return x
+before = set(seen)
+for kind, t in texts:
+    cls = {"ci": ci.ComposeInfo, "im": productmd.images.Images, "rpms": productmd.rpms.Rpms, "modules": productmd.modules.Modules,
+           "extra": productmd.extra_files.ExtraFiles}[kind]
+    base = json.loads(t)
+    for section in sorted(base["payload"]):                       # one tainted section at a time, so that later readers are reached
+        doc = json.loads(t)
+        doc["payload"][section] = taint(doc["payload"][section])
+        safe(cls().loads, json.dumps(doc))
+        if section == "variants":                                 # only the UIDs (keys and uid fields)
+            doc = json.loads(t)
+            doc["payload"][section] = {k + MARK: dict(v, uid=v["uid"] + MARK) for k, v in doc["payload"][section].items()}
+            safe(cls().loads, json.dumps(doc))
+for seed in (TI.seed_nested, TI.seed_layered):
+    t = TI.dumps(TI.build(seed()))
+    for ver in ("1.2", "0.3"):
+        secs = legacy.treeinfo(ini.parse(t), ver)[0] if ver != "1.2" else [(n, [(k, v) for k, v in o if not k.startswith(";")]) for n, o in ini.parse(t)]
+        secs = [(n.replace("Server", "Server" + MARK), [(k, (v + MARK) if n != "header" and not v[:1].isdigit() and v not in ("true", "false") else v) for k, v in o]) for n, o in secs]
+        safe(ti.TreeInfo().loads, render(secs))
+    safe(ti.TreeInfo().loads, "[general]\nfamily = Foo%s\nversion = 1%s\narch = x86_64\nvariant = Server%s\naddons = HA%s\n" % (MARK, MARK, MARK, MARK))
+tainted = sorted([p, f] for (p, f) in seen if MARK in p)
+print("TAINTED " + json.dumps(tainted))
+print("INVENTORY " + json.dumps(sorted([p, f, sorted(h)] for (p, f), h in seen.items() if MARK not in p)))
 '''
 
 
@@ -96,9 +130,12 @@ def runtime_inventory():
     env = dict(os.environ, PYTHONDONTWRITEBYTECODE="1", PYTHONUTF8="1")
     p = subprocess.run([sys.executable, "-c", DRIVER, REPO, VERIF], env=env, stdout=subprocess.PIPE, stderr=subprocess.PIPE,
                        universal_newlines=True, timeout=300)
+    tainted = []
     for line in p.stdout.splitlines():
+        if line.startswith("TAINTED "):
+            tainted = json.loads(line[8:])
         if line.startswith("INVENTORY "):
-            return [(pat, fl, how) for pat, fl, how in json.loads(line[10:])]
+            return [(pat, fl, how) for pat, fl, how in json.loads(line[10:])], tainted
     raise RuntimeError("inventory driver failed: %s" % p.stderr[-1500:])
 
 
@@ -348,10 +385,183 @@ def eval_doc_probe(name, value):
         return {"finished": False, "stalls": True, "waited": round(time.time() - t0, 1)}
 
 
+# ---- structural pump families: documents whose STRUCTURE is pumped (work counted deterministically) --------------------
+
+def _ci_doc(variants):
+    return json.dumps({"header": {"type": "productmd.composeinfo", "version": "1.2"},
+                       "payload": {"compose": {"id": "F-23-20160102.0", "type": "production", "date": "20160102", "respin": 0},
+                                   "release": {"name": "F", "short": "f", "version": "23", "type": "ga", "internal": False},
+                                   "variants": variants}})
+
+
+def _ci_var(uid, vid, children):
+    d = {"id": vid, "uid": uid, "name": uid, "type": "variant", "arches": ["x86_64"], "paths": {}}
+    if children:
+        d["variants"] = children
+    return d
+
+
+def fam_ci_chain(n, dup):
+    variants = {}
+    uid = "A"
+    variants[uid] = _ci_var(uid, "A", ["a", "a"] if dup else ["a"])
+    for i in range(n):
+        child = uid + "-a"
+        variants[child] = _ci_var(child, "a", (["a", "a"] if dup else ["a"]) if i < n - 1 else [])
+        uid = child
+    return "ci", _ci_doc(variants)
+
+
+def fam_ci_wide(n, dup=False):
+    kids = ["k%d" % i for i in range(n)]
+    variants = {"A": _ci_var("A", "A", kids)}
+    for k in kids:
+        variants["A-" + k] = _ci_var("A-" + k, k, [])
+    return "ci", _ci_doc(variants)
+
+
+def fam_ci_prefix(n, dup=False):
+    """pre-1.0: variants related by UID prefix only"""
+    variants = {}
+    uid = "a"
+    for i in range(n):
+        variants[uid] = _ci_var(uid, "a", [])
+        uid += "-a"
+    doc = json.loads(_ci_doc(variants))
+    doc["header"] = {"version": "0.9"}
+    return "ci", json.dumps(doc)
+
+
+def fam_ti_general_addons(n, dup=False):
+    return "ti", "[general]\nfamily = Foo\nversion = 1\narch = x86_64\nvariant = Server\naddons = %s\n" % ",".join("a%d" % i for i in range(n))
+
+
+def fam_ti_sections_by_id(n, dup=False):
+    """header-less tree: two [variant-<id>] sections per level, each listing the next level's two"""
+    out = ["[general]", "family = Foo", "version = 1", "arch = x86_64", "variant = L0a", ""]
+    for lvl in range(n):
+        for side in "ab":
+            out.append("[variant-L%d%s]" % (lvl, side))
+            if lvl < n - 1:
+                out.append("variants = L%da,L%db" % (lvl + 1, lvl + 1))
+            out.append("")
+    return "ti", "\n".join(out)
+
+
+def fam_ti_addon_chain(n, dup):
+    out = ["[header]", "type = productmd.treeinfo", "version = 1.2", "[release]", "name = F", "short = F", "version = 1",
+           "[tree]", "arch = x86_64", "build_timestamp = 1", "platforms = x86_64", "variants = A"]
+    uid = "A"
+    for i in range(n + 1):
+        child = uid + "-a"
+        out += ["[%s-%s]" % ("variant" if i == 0 else "addon", uid), "id = %s" % ("A" if i == 0 else "a"), "uid = %s" % uid, "name = x",
+                "type = %s" % ("variant" if i == 0 else "addon")]
+        if i < n:
+            out.append("addons = %s" % (",".join([child, child]) if dup else child))
+        uid = child
+    return "ti", "\n".join(out) + "\n"
+
+
+def fam_ti_interpolation(n, dup=False):
+    """ConfigParser value interpolation: a chain of 6 options each naming the previous one n times"""
+    out = ["[header]", "type = productmd.treeinfo", "version = 1.2", "[release]", "name = F", "short = F", "version = 1",
+           "[tree]", "arch = x86_64", "build_timestamp = 1", "platforms = x86_64", "[checksums]", "a0 = sha256:" + "a" * 8]
+    for i in range(1, 6):
+        out.append("a%d = %s" % (i, "%%(a%d)s" % (i - 1) * n))
+    return "ti", "\n".join(out) + "\n"
+
+
+def fam_im_many(n, dup=False):
+    from mc.build import im as IM
+    imgs = []
+    for i in range(n):
+        d = IM.imgspec(i)
+        d.pop("unified"); d.pop("additional_variants")
+        imgs.append(d)
+    return "im", json.dumps({"header": {"type": "productmd.images", "version": "1.2"},
+                             "payload": {"compose": {"id": "F-23-20160102.0", "type": "production", "date": "20160102", "respin": 0},
+                                         "images": {"Server": {"x86_64": imgs}}}})
+
+
+STRUCT_FAMILIES = {
+    "composeinfo-chain": (fam_ci_chain, False), "composeinfo-chain-children-listed-twice": (fam_ci_chain, True),
+    "composeinfo-wide": (fam_ci_wide, False), "composeinfo-0.9-prefix-chain": (fam_ci_prefix, False),
+    "treeinfo-general-addons-list": (fam_ti_general_addons, False), "treeinfo00-sections-by-id": (fam_ti_sections_by_id, False),
+    "treeinfo-addon-chain": (fam_ti_addon_chain, False), "treeinfo-addon-chain-listed-twice": (fam_ti_addon_chain, True),
+    "treeinfo-interpolation-fanout": (fam_ti_interpolation, False), "images-many-in-cell": (fam_im_many, False),
+}
+STEP_CAP = 250000
+
+
+HARD_CAP = 2000000
+
+
+class Abort(BaseException):
+    pass
+
+
+def count_calls(fn):
+    """number of Python function calls made while fn() runs (a deterministic work measure); aborted beyond HARD_CAP"""
+    import signal
+    n = [0]
+
+    def prof(frame, event, arg):
+        if event == "call":
+            n[0] += 1
+            if n[0] > HARD_CAP:
+                raise Abort()
+
+    def alarm(signum, frame):
+        raise Abort()
+    old = signal.signal(signal.SIGALRM, alarm)
+    signal.alarm(120)                        # backstop only; the verdict never depends on it
+    limit = sys.getrecursionlimit()
+    sys.setrecursionlimit(1000)              # the interpreter default: runaway recursion must end as it does for a caller
+    sys.setprofile(prof)
+    try:
+        try:
+            fn()
+        except Abort:
+            return HARD_CAP + 1
+        except RecursionError:
+            pass
+        except Exception:                                              # noqa  (a rejected document is fine: we count work)
+            pass
+    finally:
+        sys.setprofile(None)
+        sys.setrecursionlimit(limit)
+        signal.alarm(0)
+        signal.signal(signal.SIGALRM, old)
+    return n[0]
+
+
+def eval_struct(name):
+    import productmd.composeinfo, productmd.images, productmd.treeinfo          # noqa
+    gen, dup = STRUCT_FAMILIES[name]
+    sizes, steps, nbytes = [], [], []
+    for n in range(2, 26):
+        fmt, text = gen(n, dup)
+        cls = {"ci": productmd.composeinfo.ComposeInfo, "im": productmd.images.Images, "ti": productmd.treeinfo.TreeInfo}[fmt]
+        c = count_calls(lambda: cls().loads(text))
+        sizes.append(n)
+        steps.append(c)
+        nbytes.append(len(text))
+        if c > STEP_CAP:                # the next size is only attempted while the work stays small (growth is judged on ratios)
+            break
+    ratios = [steps[i + 1] / float(max(steps[i], 1)) for i in range(len(steps) - 1)]
+    # exponential (or worse): over the last 5 steps the growth ratio stays >= 1.7 AND does not fall off - for a polynomial of any
+    # degree the ratio ((n+1)/n)^d keeps shrinking towards 1, for c^n it is constant, for n! it rises
+    last = ratios[-5:]
+    exponential = len(last) == 5 and min(last) >= 1.7 and last[-1] >= 0.9 * max(last)
+    capped = steps[-1] > STEP_CAP
+    return {"sizes": sizes, "steps": steps, "bytes": nbytes, "exponential": bool(exponential),
+            "stalls": bool(capped and nbytes[-1] <= 400 and not exponential), "last_ratios": [round(r, 2) for r in last]}
+
+
 # ---- exploration --------------------------------------------------------------------------------
 
 def inventory():
-    rt = runtime_inventory()
+    rt, tainted = runtime_inventory()
     st = static_inventory()
     pats = {}
     for pat, fl, how in rt:
@@ -359,14 +569,16 @@ def inventory():
     for pat in st:
         if not any(k[0] == pat for k in pats):
             pats[(pat, 0)] = {"how": ["static"], "source": "static-only"}
-    return pats, len(rt), len(st)
+    return pats, len(rt), len(st), tainted
 
 
 def units(tier, seed):
-    pats, nrt, nst = inventory()
+    pats, nrt, nst, tainted = inventory()
     us = [("pattern", pat, fl, sorted(info["how"]), info["source"], tier) for (pat, fl), info in sorted(pats.items())]
     us.append(("docs",))
-    us.append(("inventory", nrt, nst))
+    us.append(("inventory", nrt, nst, tainted))
+    for name in sorted(STRUCT_FAMILIES):
+        us.append(("struct", name))
     return us
 
 
@@ -378,6 +590,25 @@ def run_unit(unit, acc):
             acc.outcome("inventory:static")
         acc.extra["patterns_recorded_at_runtime"] = unit[1]
         acc.extra["patterns_found_statically"] = unit[2]
+        for pat, fl in unit[3]:
+            acc.ev()
+            acc.violation("pattern-built-from-document-data", {"kind": "taint"}, {"data_derived_patterns": True},
+                          "document data reaches the re module unescaped: while loading a document whose strings carry the marker "
+                          "'Zq.9+Zq' the library compiled/matched the pattern %r - any document can smuggle in a nested quantifier" % pat)
+        if not unit[3]:
+            acc.outcome("inventory:no-pattern-built-from-document-data")
+        return
+    if unit[0] == "struct":
+        o = eval_struct(unit[1])
+        acc.ev(len(o["sizes"]))
+        acc.nontriv(("struct", unit[1]))
+        acc.extra.setdefault("structural_families", {})[unit[1]] = o
+        if o["exponential"] or o["stalls"]:
+            acc.violation("structure:" + unit[1], {"kind": "struct", "name": unit[1]}, {"superpolynomial_or_stall": True},
+                          "document family %s: work (Python calls made by the loader) per size parameter %s = %s for %s bytes - %s"
+                          % (unit[1], o["sizes"], o["steps"], o["bytes"], "doubling growth sustained" if o["exponential"] else "stall"))
+        else:
+            acc.outcome("structure:polynomial")
         return
     if unit[0] == "docs":
         for name, value in DOC_PROBES:
@@ -428,12 +659,21 @@ def run_unit(unit, acc):
 
 
 def replay(case):
+    if case["kind"] == "taint":
+        return {"data_derived_patterns": bool(runtime_inventory()[1])}
+    if case["kind"] == "struct":
+        o = eval_struct(case["name"])
+        return {"superpolynomial_or_stall": bool(o["exponential"] or o["stalls"])}
     if case["kind"] == "doc":
         return eval_doc_probe(case["name"], case["value"])
     return verdict_only(eval_pattern(case["pattern"], case["flags"], case["tier"], "search" if case["how"] == ["search"] else "match"))
 
 
-KNOWN = {}
+def _treeinfo00_sections_by_id(case, observed):
+    return case.get("kind") == "struct" and case.get("name") == "treeinfo00-sections-by-id" and observed.get("superpolynomial_or_stall") is True
+
+
+KNOWN = {"treeinfo00_sections_by_id": _treeinfo00_sections_by_id}
 
 
 def describe(tier):
@@ -447,7 +687,11 @@ def describe(tier):
                 "all group spans compared with the real engine; (c) all families prefix + pump^n + suffix with pumps of length <= 2 over the "
                 "class alphabet at lengths 8..48 in the step-counting matcher; (d) for suspicious patterns (ambiguity witness or step budget "
                 "exceeded) the worst family in the real engine in a killable subprocess.  Judged: super-polynomial = growth ratio >= 1.5 per "
-                "2 characters over >= 6 consecutive lengths in the real engine; stall = a <= 48-character input needs > 2 s.  Plus 21 "
+                "2 characters over >= 6 consecutive lengths in the real engine; stall = a <= 48-character input needs > 2 s.  Plus: documents whose every string carries a marker with regex metacharacters - no pattern handed to re may "
+                "contain it (data-built patterns); 10 structural pump families (variant chains with children listed once / twice, wide child "
+                "lists, prefix-related 0.9 variants, pre-productmd addon lists and sections matched by id, addon chains, interpolation fan-out, "
+                "many images in a cell) whose loader work is counted in Python calls per size parameter (exponential = the growth ratio stays >= 1.7 over the last 5 "
+                "sizes without falling off; for a polynomial it shrinks towards 1); 21 "
                 "entry-point probes (validators, parsers, composeinfo/treeinfo loads with pumped 48-character values).  Non-trivial: every "
                 "pattern and probe." % (5 if tier == "quick" else 6),
         "bound": "ambiguity: all lengths; strings <= %d; families up to length 48 (+ real engine up to 32)" % (5 if tier == "quick" else 6),
